@@ -253,12 +253,13 @@ CHECKS = {
         technique='Lean 4 proof over an abstract batch model + metamorphic exploration of the real apply path',
     ),
     'C08': dict(
-        gens=[],
-        props='ZanVerif.Props.C08',
-        protos=[dict(name='datacore', quick_seeds=2, thorough_seeds=2, classes='panic')],
+        gens=['Ttl', 'TtlKV'],
+        props=['ZanVerif.Props.C08', 'ZanVerif.Props.C08KV'],
+        protos=[dict(name='datacore', quick_seeds=2, thorough_seeds=2, classes='panic'),
+                dict(name='datacorekv', quick_seeds=2, thorough_seeds=2, classes='panic')],
         rule=DATACORE_RULE,
         trusted=DATACORE_TRUST,
-        partial=['everything except hget/hset/hdel', 'duplicate fields inside one command were a genuine defect (fixed) and are outside the model'],
+        partial=['KV (Props/C08KV.lean): C08_kv_refines_partial / C08_kv_run_refines_partial / C08_del_keys_partial carry Z.KVSpec.Conforms; each excluded deviation from redis has a witness theorem C08_dev_* on the executable model (DEL / SETIFEQ / DELIFEQ on a key expired in log time, INCRBY wraps int64, APPEND / SETRANGE with an empty value answer 0, PERSIST answers 1 without TTL, EXPIRE onto an instant <= 0, DEL k k counts twice)', 'everything except hget/hset/hdel', 'duplicate fields inside one command were a genuine defect (fixed) and are outside the model'],
         assumptions=[],
         level_text="Theorems (hash slice): refinement of the storage-level hash (size meta + field keys over the sorted reference store, codec abstracted by exactly the facts C12 proves of the real encoders) to the plain redis hash key -> field -> value: HGET reads the abstraction, HSET/HDEL replies are redis's, HSET/HDEL commute with the abstraction, the size meta never shows through. All other types and commands have NO theorem yet and no Go-side oracle: C08 is claimed for this slice only.",
         level_note="only the hash slice (hget, hset, hdel) is modelled; no differential tie of this model to rockredis yet (the correspondence of the codec is C12's); KV/list/set/zset semantics are not covered by this check",
@@ -277,12 +278,14 @@ CHECKS = {
         technique='Lean 4 invariant proof (hash) + invariant oracle after every apply event on the real store',
     ),
     'C10': dict(
-        gens=['Ttl'],
-        props='ZanVerif.Props.C10',
-        protos=[dict(name='data', mode='oracle', quick_seeds=1, thorough_seeds=1, classes='(expired-visible|resurrection|ttl-|early-removal):')],
+        gens=['Ttl', 'TtlKV'],
+        props=['ZanVerif.Props.C10', 'ZanVerif.Props.C10KV', 'ZanVerif.Props.C10Hash'],
+        protos=[dict(name='data', mode='oracle', quick_seeds=1, thorough_seeds=1, classes='(expired-visible|resurrection|ttl-|early-removal):'),
+                dict(name='datacorekv', quick_seeds=2, thorough_seeds=2, classes='(expired-visible|resurrection|ttl-|panic)'),
+                dict(name='datacorettl', quick_seeds=2, thorough_seeds=2, classes='(expired-visible|resurrection|ttl-|panic)')],
         rule=DATA_RULE,
         trusted=DATA_TRUST,
-        partial=['C10_no_resurrection_partial carries the equal-timestamp proviso (known finding)', 'C10_local_never_early is false on this tree (known finding C10-local-deletion-earliest-ttl); only the oracle covers the local-deletion policy', 'C10_filter_safe (compaction filter) not built'],
+        partial=['Props/C10KV.lean, C10Hash.lean (executable models, datacorekv / datacorettl): C10_dead_after_expiry_partial excludes DEL / SETIFEQ / DELIFEQ, C10_hash_dead_after_expiry_partial excludes HDEL (witnesses C10_*_false_*, known finding C10-removers-see-expired-generation); C10_no_resurrection (hash) carries the explicit fresh-version hypothesis, witnesses C10_equal_ts_witness(_expiry) by decide on the executable model', 'C10_no_resurrection_partial carries the equal-timestamp proviso (known finding)', 'C10_local_never_early is false on this tree (known finding C10-local-deletion-earliest-ttl); only the oracle covers the local-deletion policy', 'C10_filter_safe (compaction filter) not built'],
         assumptions=[],
         level_text="Theorems: the expiry rule and TTL value over the expressions REGENERATED from rockredis/t_ttl_compact.go (expired iff ExpireAt <= floor(ts/1e9), never for ExpireAt=0 or ts=0; TTL = ExpireAt - floor(ts/1e9) and positive iff not expired), for all values; the generation mechanism: dead after expiry, renewal shows exactly the new generation, no resurrection under the proviso 'no stale sub-key of the new generation is stored', and a `decide` witness that the proviso is needed (generation = log timestamp). On the real store: per-command monitors against a never-used key of a scratch store (expired-visible, resurrection), expiry bookkeeping rules (ttl-not-cleared / ttl-wrong / ttl-lost), read-side monitors, and the local-deletion scan monitor (early-removal).",
         level_note='generation model is abstract (hash-shaped); compaction filter not modelled; read-path expiry only far from the boundary (wall clock)',
